@@ -20,6 +20,7 @@ import (
 	"crypto/tls"
 	"errors"
 	"io"
+	"io/ioutil"
 	"net"
 	"net/http"
 	"net/http/httputil"
@@ -238,16 +239,43 @@ func (p *Proxy) Serve(l net.Listener) error {
 	}
 }
 
+// lingerTimeout bounds how long a client connection that is being closed is still read from.
+const lingerTimeout = 2 * time.Second
+
+// closeClientConn closes a client connection without destroying what was just written to it.
+// Closing a TCP socket that has unread input - requests the client pipelined behind the last one
+// that was answered, say - makes the kernel reset the connection and throw away the response that
+// is still on its way. So the write side is shut down first and input is read and discarded until
+// the client closes its side too, or lingerTimeout has passed.
+func closeClientConn(conn net.Conn) {
+	if cw, ok := conn.(interface{ CloseWrite() error }); ok {
+		if err := cw.CloseWrite(); err == nil {
+			conn.SetReadDeadline(time.Now().Add(lingerTimeout))
+			io.Copy(ioutil.Discard, conn)
+		}
+	}
+	conn.Close()
+}
+
 func (p *Proxy) handleLoop(conn net.Conn) {
 	defer p.conns.Done()
-	defer conn.Close()
+	var s *Session
+	defer func() {
+		if s != nil && s.Hijacked() {
+			// The connection was the hijacker's: it is closed, not read from any more.
+			conn.Close()
+			return
+		}
+		closeClientConn(conn)
+	}()
 	if p.Closing() {
 		return
 	}
 
 	brw := bufio.NewReadWriter(bufio.NewReader(conn), bufio.NewWriter(conn))
 
-	s, err := newSession(conn, brw)
+	var err error
+	s, err = newSession(conn, brw)
 	if err != nil {
 		log.Errorf("martian: failed to create session: %v", err)
 		return
